@@ -22,6 +22,7 @@ def main():
     ap.add_argument('prop'); ap.add_argument('tag'); ap.add_argument('patch'); ap.add_argument('demo')
     ap.add_argument('--props', default=None)
     ap.add_argument('--skip-tests', action='store_true')
+    ap.add_argument('--reuse-tests', action='store_true', help='keep the test result recorded by an earlier intake of the same patch')
     ap.add_argument('--needs', default='')
     ap.add_argument('--tier', default='quick')
     a = ap.parse_args()
@@ -42,7 +43,13 @@ def main():
         r = sh('cd %s && /venv/bin/python -W ignore %s' % (scr, os.path.abspath(a.demo)), timeout=1200, env=env)
         meta['demo_with_patch'] = {'exit': r.returncode, 'tail': (r.stdout + r.stderr)[-300:]}
         meta['files_touched'] = sh('git -C %s diff --stat' % scr).stdout.strip().splitlines()
-        if not a.skip_tests:
+        prev = '/verif/seeded/%s-%s/meta.json' % (a.prop, a.tag)
+        if a.reuse_tests and os.path.exists(prev) and 'existing_tests_with_patch' in json.load(open(prev)):
+            meta['existing_tests_with_patch'] = json.load(open(prev))['existing_tests_with_patch']
+            if not a.needs:
+                meta['needs_to_manifest'] = json.load(open(prev)).get('needs_to_manifest', '')
+            a.skip_tests = False
+        elif not a.skip_tests:
             t = time.time()
             jx = '/tmp/vf-seeded-junit-%s%s.xml' % (a.prop, a.tag)
             r = sh('cd %s && /venv/bin/python -m pytest -q -p no:cacheprovider -n 8 --timeout=1800 --junitxml=%s %s' % (
@@ -76,7 +83,7 @@ def main():
     shutil.copy(a.patch, os.path.join(out, 'patch.diff'))
     shutil.copy(a.demo, os.path.join(out, 'demo.py'))
     meta['valid'] = bool(meta.get('patch_applies') and meta['demo_on_clean_tree']['exit'] == 0 and meta['demo_with_patch']['exit'] != 0
-                         and (a.skip_tests or meta['existing_tests_with_patch']['exit'] == 0))
+                         and (('existing_tests_with_patch' not in meta) or meta['existing_tests_with_patch']['exit'] == 0))
     json.dump(meta, open(os.path.join(out, 'meta.json'), 'w'), indent=1)
     print(json.dumps({k: meta[k] for k in ('valid', 'patch_applies', 'demo_on_clean_tree', 'demo_with_patch') if k in meta})[:600])
     if 'existing_tests_with_patch' in meta:
